@@ -935,7 +935,9 @@ class Context:
         if z3.is_false(c):
             return False
         pos = len(self.trace)
-        h = c.hash()
+        # alignment key: structural hash of the *unsimplified* term (built deterministically by the proxies);
+        # the simplifier orders arguments by AST id, which differs between re-executions
+        h = cond.hash()
         if pos < len(self.prefix):
             d = self.prefix[pos]
             if d.h != h:
